@@ -27,16 +27,14 @@ More == l < Len(T.events)
 
 (* cr = FALSE: the specification.  cr = TRUE: the deviating reading "a case-insensitive  *)
 (* atom raises on a non-string value", evaluated only to NAME that deviation.            *)
-SetOK(e, cr) ==
-    LET F  == T.forest
-        hi == SelectSet(F, e.recv, e.qs, e.deep, TRUE, cr)
-        lo == SelectSet(F, e.recv, e.qs, e.deep, FALSE, cr)
-        S  == Rng(e.res)
-    IN IF e.roots THEN RootsOf(F, lo) \subseteq S /\ S \subseteq RootsOf(F, hi)     \* de-duplicated ultimate ancestors
-                  ELSE lo \subseteq S /\ S \subseteq hi                             \* exactly the matching nodes
+SetOK(e, sem, cr) ==
+    LET F   == T.forest
+        sel == SelectSet(F, e.recv, e.qs, e.deep, sem, cr)
+    IN Rng(e.res) = (IF e.roots THEN RootsOf(F, sel)      \* de-duplicated ultimate ancestors
+                                ELSE sel)                 \* exactly the matching nodes; a raising predicate does not match
 SelOK(e, cr) ==
     /\ e.out = "ok"
-    /\ SetOK(e, cr)
+    /\ SetOK(e, "strict", cr)
     /\ Increasing(e.res)                                                              \* document order, no duplicate
 
 TruthOK(e, cr) ==
@@ -62,18 +60,17 @@ QueryKinds(e) ==
 
 DiagSel(e) ==
     LET F  == T.forest
-        hi == SelectSet(F, e.recv, e.qs, e.deep, TRUE, FALSE)
-        lo == SelectSet(F, e.recv, e.qs, e.deep, FALSE, FALSE)
         S  == Rng(e.res)
-        H  == IF e.roots THEN RootsOf(F, hi) ELSE hi
-        L  == IF e.roots THEN RootsOf(F, lo) ELSE lo
+        X  == LET sel == SelectSet(F, e.recv, e.qs, e.deep, "strict", FALSE) IN IF e.roots THEN RootsOf(F, sel) ELSE sel
         order == IF Len(e.res) # Cardinality(S) THEN (IF e.roots THEN "RootsDedup.duplicate" ELSE "Exact.duplicate:" \o Shape(e))
                  ELSE "DocumentOrder:" \o Shape(e) \o
                       (IF Nested(F, e.recv, e.qs, e.deep) THEN ":nested-matches" ELSE "") \o (IF e.roots THEN ":roots" ELSE "")
     IN IF e.out # "ok" THEN "Select.crash:" \o Shape(e) \o ":" \o QueryKinds(e)
-       ELSE IF SetOK(e, FALSE) THEN order
-       ELSE IF SetOK(e, TRUE) THEN (IF Increasing(e.res) THEN "Exact:caseless-on-nonstring-value" ELSE order)
-       ELSE IF ~(S \subseteq H) THEN
+       ELSE IF SetOK(e, "strict", FALSE) THEN order
+       ELSE IF SetOK(e, "interp", FALSE) THEN      \* explained by: a raising atom is false and the algebra goes on
+            "RaisingCountsAsNotMatching:" \o (IF S \subseteq X THEN "missing" ELSE "raising-predicate-matched") \o ":" \o QueryKinds(e)
+       ELSE IF SetOK(e, "strict", TRUE) THEN (IF Increasing(e.res) THEN "Exact:caseless-on-nonstring-value" ELSE order)
+       ELSE IF ~(S \subseteq X) THEN
             (IF e.roots /\ \E m \in S : m \in DOMAIN F /\ F[m].d # 0 THEN "Roots.not-ultimate-ancestor"
              ELSE "Exact.extra:" \o Shape(e) \o ":" \o QueryKinds(e) \o (IF e.roots THEN ":roots" ELSE ""))
        ELSE "Exact.missing:" \o Shape(e) \o ":" \o QueryKinds(e) \o (IF e.roots THEN ":roots" ELSE "")
